@@ -19,9 +19,16 @@ RandInterest(i) ==
       nonce |-> RandomElement(BOOLEAN), life |-> RandomElement({-1, 0, 255, 256, 65536}), hop |-> RandomElement({-1, 0, 255}), params |-> p,
       \* a signed Interest always carries parameters
       signer |-> (IF p >= 0 THEN RandomElement({"none", "sha256int", "hmacint", "ecdsaint"}) ELSE "none"), split |-> RandomElement({1, 2, 3}), id |-> i]
+\* sweeps across the 1-byte / 3-byte TLV-LENGTH boundary of the OUTER length for signers whose signature is shorter
+\* than their estimate (ECDSA: the encoder shrinks the packet after signing)
+SweepData == [c \in 1..90 |-> [kind |-> "data", s |-> [comps |-> << [t |-> 8, vlen |-> 1] >>, ct |-> -1, fresh |-> -1, fbid |-> -1, content |-> 100 + c,
+                                                       signer |-> (IF c % 3 = 0 THEN "hmac" ELSE "ecdsa"), split |-> 1, id |-> 100000 + c]]]
+SweepInterest == [c \in 1..90 |-> [kind |-> "interest", s |-> [comps |-> << [t |-> 8, vlen |-> 1] >>, cbp |-> FALSE, mbf |-> FALSE, hints |-> <<>>, nonce |-> TRUE,
+                                                               life |-> -1, hop |-> -1, params |-> 60 + c, signer |-> "ecdsaint", split |-> 1, id |-> 200000 + c]]]
 Init == done = FALSE
 Next == /\ ~done /\ done' = TRUE
-        /\ ndJsonSerialize(OutFile, [i \in 1..NData |-> [kind |-> "data", s |-> RandData(i)]] \o [i \in 1..NInterest |-> [kind |-> "interest", s |-> RandInterest(i)]])
+        /\ ndJsonSerialize(OutFile, [i \in 1..NData |-> [kind |-> "data", s |-> RandData(i)]] \o [i \in 1..NInterest |-> [kind |-> "interest", s |-> RandInterest(i)]]
+                                   \o SweepData \o SweepInterest)
 Spec == Init /\ [][Next]_done
 \* oracle self-consistency on sampled shapes with representative signature lengths
 WithSig(s, siL, sigL) == [x \in DOMAIN s \cup {"siL", "sigL"} |-> IF x = "siL" THEN siL ELSE IF x = "sigL" THEN sigL ELSE s[x]]
